@@ -13,7 +13,7 @@ ASSUMPTIONS = ['generator bookkeeping is self-checked (recorded delimiters slice
                'a declaration spans name..";"+1 with the value as body; an empty value may be any empty range between colon and semicolon',
                'balanced_outward: value, declaration, then content range and full range of each enclosing rule; empty ranges and consecutive duplicates dropped',
                'balanced_inward boundary convention left open as in C09',
-               'selectors never start with ":" and comments never end a selector (scanner quirks outside the stated generator)']
+               'a comment never stands between a selector and its brace without a blank (the selector range then ends at the comment)']
 FLOORS = {'quick': {'position': 30000, 'document': 250, 'position:d2': 3000}, 'thorough': {'position': 2000000, 'document': 15000, 'position:d2': 150000}}
 REQUIRED_MONITORS = ['oracle:match', 'oracle:outward', 'oracle:inward']
 NDOCS = {'quick': 45, 'thorough': 1300}
